@@ -4,7 +4,7 @@
     model and the specification, never a proof file. *)
 From Coq Require Import String.
 From Coq Require Import List Ascii ZArith Bool.
-From CGV Require Import Base.PyBase Base.PyVal Dialect.DialectImpl Frag.NDict Frag.StripImpl Frag.FragText.
+From CGV Require Import Base.PyBase Base.PyVal Dialect.DialectImpl Frag.NDict Frag.StripImpl Frag.FragText Frag.SmilesParse.
 Import ListNotations.
 
 (** what the implementation did: the class name of the exception, or the four returned values *)
@@ -40,13 +40,42 @@ Fixpoint pairs_eqb (a b : list (pystr * pystr)) : bool :=
   | _, _ => false
   end.
 
+(** pysmiles on a text: what base_smiles_parser returned, and the graph read_smiles holds when it
+    reaches fill_valence (node attributes of parse_atom, bond orders) *)
+Inductive sobs_base := SBErr (cls : pystr) | SBOk (b : base_obs).
+Inductive sobs_full := SFErr (cls : pystr) | SFOk (nodes : list attrs) (edges : list (nat * nat * pyval)).
+Definition bond_eqb (a b : bondstr) : bool := optc_eqb a b.
+Definition same_pair (u v u' v' : nat) : bool := (Nat.eqb u u' && Nat.eqb v v') || (Nat.eqb u v' && Nat.eqb v u').
+(** edge lists as sets of unordered pairs with a label *)
+Definition edges_eqb {L} (leqb : L -> L -> bool) (a b : list (nat * nat * L)) : bool :=
+  Nat.eqb (length a) (length b) &&
+  forallb (fun e => let '(u, v, l) := e in existsb (fun e' => let '(u', v', l') := e' in same_pair u v u' v' && leqb l l') b) a.
+Definition ezkeys_eqb (a b : list (option nat * ascii)) : bool :=
+  Nat.eqb (length a) (length b) &&
+  forallb (fun kv => existsb (fun kv' => okey_eqb (fst kv) (fst kv') && Ascii.eqb (snd kv) (snd kv')) b) a.
+Fixpoint attrs_list_eqb (a b : list attrs) : bool :=
+  match a, b with [], [] => true | x :: a', y :: b' => attrs_eqb x y && attrs_list_eqb a' b' | _, _ => false end.
+
 Inductive case :=
+| CSmiles (text : pystr) (base : sobs_base) (full : sobs_full)
 | CStrip (text : pystr) (fo : list (pystr * option pystr)) (judge : bool) (toks : list tok) (dc : decor) (impl : obs)
 | CRing (rest : pystr) (token : ascii) (nc : nat) (impl : ring_obs)
 | CSplit (text : pystr) (impl : list (pystr * pystr)).
 
 Definition corr_ok (c : case) : bool :=
   match c with
+  | CSmiles text base full =>
+      (match base_smiles_parser text, base with
+       | Ok (atoms, edges, ez), SBOk (atoms', edges', ez') =>
+           strs_eqb atoms atoms' && edges_eqb bond_eqb edges edges' && ezkeys_eqb ez ez'
+       | Err e, SBErr n => str_eqb (err_name e) n
+       | _, _ => false
+       end) &&
+      (match smiles_parse text, full with
+       | Ok g, SFOk nodes edges => attrs_list_eqb (g_nodes g) nodes && edges_eqb pyval_eqb (g_edges g) edges
+       | Err e, SFErr n => str_eqb (err_name e) n
+       | _, _ => false
+       end)
   | CStrip text fo _ _ _ impl =>
       match strip_bonding_descriptors (fo_of_table fo) text, impl with
       | Ok r, ORes r' => result_eqb r r'
